@@ -131,7 +131,7 @@ func generate(w *mon.W) {
 		switch pos {
 		case "summarize-agg":
 			g.Agg = true
-		case "let":
+		case "let", "let-chain":
 			g.NoCols = true
 		}
 		x := g.Gen(typeFor(pos, rng), 1+rng.Intn(7))
